@@ -26,7 +26,6 @@ const (
 	ConcurrentStrategyResetIntervalDefault = 600
 	queueKeySuffix                         = "concurrent"
 	memberDelimiter                        = "::"
-	validMemberKeyParts                    = 3
 )
 
 type parsedMember struct {
@@ -390,17 +389,21 @@ func (cs *concurrentStrategy) extractMemberFromItem(item string) (*parsedMember,
 		Key: item,
 	}
 
-	parts := strings.Split(item, memberDelimiter)
-	if len(parts) != validMemberKeyParts {
+	// The request ID in the middle is client-supplied text (x-lunar-req-id) and may contain
+	// the delimiter itself: the expiry ends at the first delimiter, the instance ID starts
+	// after the last one.
+	first := strings.Index(item, memberDelimiter)
+	last := strings.LastIndex(item, memberDelimiter)
+	if first < 0 || last < first+len(memberDelimiter) {
 		log.Error().
 			Msgf("invalid format, expected {enter_timestamp}%s{value}%s{expiry_timestamp}.",
 				memberDelimiter, memberDelimiter)
 		return parsedMember, fmt.Errorf("invalid format")
 	}
 
-	expiry := parts[0] // from .UnixNano() to time.Unix
-	reqID := parts[1]
-	instanceID := parts[2]
+	expiry := item[:first] // from .UnixNano() to time.Unix
+	reqID := item[first+len(memberDelimiter) : last]
+	instanceID := item[last+len(memberDelimiter):]
 	// expiryTimestamp, err := strconv.ParseInt(expiry, 10, 64)
 	expiryTimestamp, err := strconv.ParseInt(expiry, 10, 64)
 	if err != nil {
